@@ -75,6 +75,57 @@ pub open spec fn coercible(t: Type, leafset: spec_fn(JV) -> bool, v: JV) -> bool
     }
 }
 
+
+pub open spec fn plain_leaf(leaf: TSType) -> bool { !(leaf is Union) && !(leaf is Array) && !(leaf is Null) }
+
+/// C09 (wrappers): whatever the contract above admits structurally MEANS exactly GraphQL input coercion:
+/// a value is admitted by the emitted TS type iff the server's coercion accepts it for the declared type -
+/// at every nesting depth (non-null never null, lists are arrays of the element type).
+//@ lemma [C09.tstype.semantics_inner] lemma_sem_inner
+pub proof fn lemma_sem_inner(res: TSType, t: Type, leaf: TSType, leafset: spec_fn(JV) -> bool, v: JV)
+    requires renders_inner(res, t, leaf), plain_leaf(leaf), forall|x: JV| #[trigger] leafset(x) ==> !(x is Null),
+    ensures ts_admits(res, leaf, leafset, v) <==> (!(v is Null) && coercible(t, leafset, v)),
+    decreases t, 0nat, v
+{
+    match t {
+        Type::Named(_) => {}
+        Type::List(li) => {
+            let b = res->Array_0;
+            assert(res != leaf);
+            if let JV::Arr(xs) = v {
+                assert forall|i: int| 0 <= i < xs.len() implies
+                    (ts_admits(*b, leaf, leafset, #[trigger] xs[i]) <==> coercible(li.r#type, leafset, xs[i])) by {
+                    lemma_sem_outer(*b, li.r#type, leaf, leafset, xs[i]);
+                }
+            }
+        }
+        Type::NonNull(n) => { lemma_sem_inner(res, n.r#type, leaf, leafset, v); }
+    }
+}
+//@ lemma [C09.tstype.semantics_outer] lemma_sem_outer
+pub proof fn lemma_sem_outer(res: TSType, t: Type, leaf: TSType, leafset: spec_fn(JV) -> bool, v: JV)
+    requires renders_outer(res, t, leaf), plain_leaf(leaf), forall|x: JV| #[trigger] leafset(x) ==> !(x is Null),
+    ensures ts_admits(res, leaf, leafset, v) <==> coercible(t, leafset, v),
+    decreases t, 1nat, v
+{
+    if t is NonNull {
+        lemma_sem_inner(res, t, leaf, leafset, v);
+    } else {
+        let ms = res->Union_0;
+        assert(res != leaf);
+        lemma_sem_inner(ms@[0], t, leaf, leafset, v);
+        assert(ms@[1] != leaf);
+        assert(ts_admits(ms@[1], leaf, leafset, v) <==> v is Null);
+        if ts_admits(res, leaf, leafset, v) {
+            let k = choose|k: int| 0 <= k < ms@.len() && ts_admits(#[trigger] ms@[k], leaf, leafset, v);
+            assert(k == 0 || k == 1);
+        }
+        if coercible(t, leafset, v) {
+            if v is Null { assert(ts_admits(ms@[1], leaf, leafset, v)); } else { assert(ts_admits(ms@[0], leaf, leafset, v)); }
+        }
+    }
+}
+
 //@ contract nitrogql_printer::ts_types::type_to_ts_type ::fn get_ts_type_of_type
 //@   ret res
 //@   requires [C09.tstype.outer.pre_total] forall|n: &NamedType| map_name.requires((n,))
